@@ -31,11 +31,11 @@ def gen(run):
 def build_harness(run):
     if getattr(run, "c19_exe", None):
         return run.c19_exe
-    sync = cbuild.firmware_obj(run, "layer1/sync.c", "sync")
-    gu = cbuild.libosmocore_obj(run, "gsm/gsm_utils.c", "gsm_utils")
+    sync = cbuild.firmware_obj(run, "layer1/sync.c", "sync", extra_flags=cbuild.CONSOLE_FLAGS)
+    gu = cbuild.libosmocore_obj(run, "gsm/gsm_utils.c", "gsm_utils", extra_flags=cbuild.CONSOLE_FLAGS)
     h = cbuild.obj(run, os.path.join(vf.ROOT, "harness/c/c19_harness.c"), "c19_harness",
                    includes=[cbuild.LIBOSMO_INC])
-    run.c19_exe = cbuild.link(run, [h, sync, gu], "c19_harness.bin", ignore_unresolved=True)
+    run.c19_exe = cbuild.link(run, [h, sync, gu, cbuild.console_sink(run)], "c19_harness.bin", ignore_unresolved=True)
     return run.c19_exe
 
 
